@@ -25,7 +25,8 @@ SRC_TIE = {
     "C02": _ST.format(f="array.get_c_strides / get_strides", t="XoGen.src_get_c_strides, src_get_strides"),
     "C06": _ST.format(f="array.get_c_strides / get_strides / get_offset / mk_order", t="XoGen.src_get_c_strides, src_get_strides, src_get_offset, src_item_offset, src_mk_order_*"),
     "C13": _ST.format(f="context_cpu.BufferNumpy / BufferByteArray .update_from_native, .to_native, .copy_to_native, .update_from_buffer, .to_bytearray",
-                      t="XoGen.src_update_from_native, src_to_native, src_copy_to_native, src_update_from_buffer (the translated methods of both kinds are the BufPrim functions inside capacity)"),
+                      t="XoGen.src_update_from_native, src_to_native, src_copy_to_native, src_update_from_buffer, src_update_from_xbuffer, src_grow (the translated methods of both kinds are the BufPrim functions inside capacity)"),
+    "C09": _ST.format(f="context.XBuffer.update_from_xbuffer (the cross-buffer / cross-context byte transfer)", t="XoGen.src_update_from_xbuffer"),
     "C11": _ST.format(f="array.bound_check", t="XoGen.src_bound_check (IndexError exactly when the model's boundCheck refuses)"),
 }
 
